@@ -19,8 +19,33 @@ def parseValidator (s : String) : Option (Callback Int Int) :=
     | none => none
   | _ => none
 
+/-- `list.sort(key=k, reverse=r)` on ints: spec = 2*k + r with k ∈ {0: identity, 1: x % 3,
+2: x // 2 (floor), 3: -x}.  CPython's sort is stable, and `reverse=True` keeps equal
+elements in their original order (= reverse, stable sort, reverse). -/
+def sortKey (k : Nat) (x : Int) : Int :=
+  match k with
+  | 1 => x % 3
+  | 2 => Int.fdiv x 2
+  | 3 => -x
+  | _ => x
+
+def pySort (spec : Nat) (l : List Int) : List Int :=
+  let key := sortKey (spec / 2)
+  if spec % 2 = 1 then
+    -- descending by key, ties in original order
+    (l.reverse.mergeSort (fun a b => key a ≤ key b)).reverse
+  else l.mergeSort (fun a b => key a ≤ key b)
+
 def mkEnv (v : Callback Int Int) : Env Int :=
-  { v := v, eq := fun a b => a == b, sort := fun l => l.mergeSort (· ≤ ·) }
+  { v := v, eq := fun a b => a == b, sort := pySort }
+
+/-- An iterable argument: `[1,2]` or the same with a one-letter marker of the Python
+iterable kind in front (`g` generator, `t` tuple, `i` iterator); every override
+converts it to a concrete list first, so the model ignores the marker. -/
+def iterList? (s : String) : Option (List Int) :=
+  let s := clean s
+  if s.startsWith "g" || s.startsWith "t" || s.startsWith "i" then intList? (s.drop 1).toString
+  else intList? s
 
 def parseSlice (a b c : String) : Option Slice := do
   let a ← optInt? a; let b ← optInt? b; let c ← optInt? c
@@ -29,19 +54,20 @@ def parseSlice (a b c : String) : Option Slice := do
 def parseOp (s : String) : Option (Op Int) :=
   match words s with
   | ["si", i, x] => do pure (.setIdx (← int? i) (← int? x))
-  | ["ss", a, b, c, xs] => do pure (.setSlice (← parseSlice a b c) (← intList? xs))
+  | ["ss", a, b, c, xs] => do pure (.setSlice (← parseSlice a b c) (← iterList? xs))
   | ["di", i] => do pure (.delIdx (← int? i))
   | ["ds", a, b, c] => do pure (.delSlice (← parseSlice a b c))
   | ["ap", x] => do pure (.append (← int? x))
-  | ["ex", xs] => do pure (.extend (← intList? xs))
-  | ["ia", xs] => do pure (.iadd (← intList? xs))
+  | ["ex", xs] => do pure (.extend (← iterList? xs))
+  | ["ia", xs] => do pure (.iadd (← iterList? xs))
   | ["im", n] => do pure (.imul (← int? n))
   | ["in", i, x] => do pure (.insert (← int? i) (← int? x))
   | ["po", i] => do pure (.pop (← int? i))
   | ["rm", x] => do pure (.remove (← int? x))
   | ["cl"] => some .clear
   | ["rv"] => some .reverse
-  | ["so"] => some .sort
+  | ["so"] => some (.sort 0)
+  | ["sk", k, r] => do pure (.sort (2 * (← k.toNat?) + (← r.toNat?)))
   | _ => none
 
 def showNIdx : NIdx → String
